@@ -32,6 +32,7 @@ e.g. HPAngle(value).dec()
 """
 
 from math import radians
+import numpy as np
 
 
 class DECAngle(float):
@@ -1255,17 +1256,24 @@ def dd2sec(dd):
 
 
 def dec2hp_v(dec):
-    minute, second = divmod(abs(dec) * 3600, 60)
+    # work in whole units of 1e-9 seconds (1e-8 from 512 degrees) so that
+    # seconds and minutes carry exactly, as in dec2hp
+    unit = np.where(abs(dec) < 512, 1.0, 10.0)
+    total = np.rint(abs(dec) * 3600e9 / unit) * unit
+    minute, second = divmod(total, 60e9)
     degree, minute = divmod(minute, 60)
-    hp = degree + (minute / 100) + (second / 10000)
+    hp = (degree * 1e13 + minute * 1e11 + second) / 1e13
     hp[dec <= 0] = -hp[dec <= 0]
     return hp
 
 
 def hp2dec_v(hp):
-    degmin, second = divmod(abs(hp) * 1000, 10)
-    degree, minute = divmod(degmin, 100)
-    dec = degree + (minute / 60) + (second / 360)
+    # split the 13 decimal rendering (12 from 512 degrees), as in hp2dec
+    unit = np.where(abs(hp) < 512, 1.0, 10.0)
+    total = np.rint(abs(hp) * 1e13 / unit) * unit
+    degree, mmss = divmod(total, 1e13)
+    minute, second = divmod(mmss, 1e11)
+    dec = degree + (minute / 60) + (second / 3600e9)
     dec[hp <= 0] = -dec[hp <= 0]
     return dec
 
